@@ -16,3 +16,27 @@ mod utils;
 
 pub use crate::formatter::{Format, Formatter};
 pub use error::FormatterError;
+
+/// Verification hooks (see /verif/DESIGN.md): thin wrappers that expose crate-private kernels.
+#[cfg(feature = "fuellabs_sway_verif")]
+pub mod verif_hooks {
+    use crate::{config::whitespace::NewlineStyle, FormatterError};
+
+    /// `utils::map::newline_style::apply_newline_style`
+    pub fn apply_newline_style(
+        newline_style: NewlineStyle,
+        formatted_text: &mut String,
+        raw_input_text: &str,
+    ) -> Result<(), FormatterError> {
+        crate::utils::map::newline_style::apply_newline_style(
+            newline_style,
+            formatted_text,
+            raw_input_text,
+        )
+    }
+
+    /// `utils::map::newline::format_newline_sequence` of a sequence of `sequence_length` newlines
+    pub fn format_newline_sequence(sequence_length: usize, threshold: usize) -> String {
+        crate::utils::map::newline::verif_format_newline_sequence(sequence_length, threshold)
+    }
+}
